@@ -56,18 +56,22 @@ fn lex_ip_schemepart(source: &[char]) -> Option<usize> {
 
 fn lex_login(source: &[char]) -> Option<usize> {
     let hostport_start = if let Some(cred_end) = source.iter().position(|c| *c == '@') {
+        let mut valid_credentials = true;
+
         if let Some(pass_beg) = source[0..cred_end].iter().position(|c| *c == ':') {
             if !is_uchar_plus_string(&source[pass_beg + 1..cred_end]) {
-                return None;
+                valid_credentials = false;
             }
         }
 
         // Check username
         if !is_uchar_plus_string(&source[0..cred_end]) {
-            return None;
+            valid_credentials = false;
         }
 
-        cred_end + 1
+        // An `@` that is not preceded by credentials (it may be anywhere later in the text) does
+        // not belong to this URL.
+        if valid_credentials { cred_end + 1 } else { 0 }
     } else {
         0
     };
